@@ -412,7 +412,7 @@ def expectedAuthSites : List (String × String × String × String × String × 
   ("HandleSetFileInfo", "cc", "AccessSetFolderComment", "deny-guard", "t.GetField(FieldFileComment).Data != nil && case mode.IsDir()", []),
   ("HandleSetFileInfo", "cc", "AccessSetFileComment", "deny-guard", "t.GetField(FieldFileComment).Data != nil && case mode.IsRegular()", []),
   ("HandleSetFileInfo", "cc", "AccessRenameFolder", "deny-guard", "fileNewName != nil && case mode.IsDir()", ["hlFile.InfoForkWriter"]),
-  ("HandleSetFileInfo", "cc", "AccessRenameFile", "deny-guard", "fileNewName != nil && case mode.IsRegular()", ["hlFile.InfoForkWriter", "os.Rename"]),
+  ("HandleSetFileInfo", "cc", "AccessRenameFile", "deny-guard", "fileNewName != nil && case mode.IsRegular()", ["hlFile.InfoForkWriter", "os.Rename", "os.Rename"]),
   ("HandleSetUser", "cc", "AccessModifyUser", "deny-guard", "", []),
   ("HandleSetUser", "c", "AccessDisconUser", "cond:c.Authorize(AccessDisconUser)", "range cc.Server.ClientMgr.List() && c.Account.Login == login", ["AccountManager.Update"]),
   ("HandleTranAgreed", "cc", "AccessAnyName", "cond:cc.Authorize(AccessAnyName)", "t.GetField(FieldUserName).Data != nil", []),
